@@ -164,7 +164,7 @@ impl Template {
                                 w.expr_stmt(|w| {
                                     write!(
                                         w,
-                                        "var {}=D({},(require,exports,module)=>{{{}\n}})()",
+                                        "var {}=D({},(require,exports,module)=>{{\n{}\n}})()",
                                         ident,
                                         gen_lit_str(&format!("{}#{}", &self.path, module_name.name)),
                                         content
